@@ -44,7 +44,10 @@ def variants_for(pid, i, model, tier):
     m = MODELS[model]
     sc = m["scales"]
     base = dict(scale=sc[i % len(sc)], seed=i, req_alg=ALGS[i % 3], resp_alg=ALGS[(i // 3) % 3],
-                cred_variant=(i // 2) % 2)
+                cred_variant=(i // 2) % 3, seal=("ext" if i % 2 == 0 else "lib"),
+                other_tid=("outstanding" if (i // 2) % 2 == 0 else "fresh"))
+    if i % 4 == 1:
+        base["remote_addr"] = "a6"      # an agent associated with one peer; destinations are still per send
     vs = [base]
     if pid == "C20":
         vs.append(dict(base, base_ms=10 ** 9, tag="shift"))
@@ -100,26 +103,32 @@ def b1_model(pid, tier, seed, model, wd):
         if sample is None and n > 6 and vi == 0:
             sample = {"model": model, "script": sc["steps"][:8], "observed": [e["ret"] for e in evs[:8]]}
         if vi == 0:
-            base_result[i] = (mm, nondet, evs)
+            base_result[i] = (mm, nondet, evs, n)
         props = None
         what = None
         if mm:
             stats["mismatches"] += 1
             props, what = list(mm.props), mm.what
-            if vi > 0:
-                bm = base_result.get(i, (None,))[0]
-                if bm is None:
-                    props = ["C20"]          # conforms in the baseline, not when shifted/threaded/with decoys
-                    what = "[variant %s] %s" % (tag, what)
-        elif vi > 0:
-            bm, bnd, bevs = base_result.get(i, (None, True, None))
-            if bm is None and not bnd and not nondet and bevs is not None:
-                # no choice was ever open: the runs must agree event for event (instants are base-relative)
-                strip = lambda es: [{k: e[k] for k in ("ret", "obs", "probe") if k in e} for e in es]
-                if canon(strip(evs)) != canon(strip(bevs)):
-                    props = ["C20"]
-                    what = "[variant %s] run differs from the baseline run of the same script" % tag
+        if vi > 0 and i in base_result:
+            # C20: the same script under another base instant / thread / with other agents around.  Where no
+            # poll choice was open in either run (HashMap order is the only legitimate nondeterminism), the
+            # two runs must agree event for event - instants are logged relative to the run's own base.
+            bm, bnd, bevs, bn = base_result[i]
+            strip = lambda es: [{k: e[k] for k in ("ret", "obs", "probe") if k in e} for e in es]
+            # only as far as both runs were followed through the LTS (+ the first unexplained step): beyond
+            # that the state is unknown and HashMap order may legitimately differ
+            upto = min(n, bn) + 1
+            evs_c, bevs_c = evs[:upto], bevs[:upto]
+            if not bnd and not nondet and canon(strip(evs_c)) != canon(strip(bevs_c)):
+                k = next((j for j in range(min(len(evs_c), len(bevs_c))) if canon(strip(evs[j:j + 1])) != canon(strip(bevs[j:j + 1]))), 0)
+                props = ["C20"]
+                what = "[variant %s] same script, different answers at step %d: %s vs baseline %s" % (
+                    tag, k, canon(strip(evs[k:k + 1])), canon(strip(bevs[k:k + 1])))
+                if not mm:
                     stats["mismatches"] += 1
+            elif mm and bm is None:
+                props = ["C20"]          # conforms in the baseline, not when shifted/threaded/with decoys
+                what = "[variant %s] %s" % (tag, what)
         if props:
             if len(findings) < 200:
                 findings.append((props, "%s: %s" % (sid, what), {"kind": "agent_script", "script": sc, "model": model}))
